@@ -117,6 +117,18 @@ class Enum:
         return "%s::%s%s" % (self.adt.split("::")[-1], self.name, tuple(self.fields) if self.fields else "")
 
 
+class PyIter:
+    """an iterator over known integers (mutable: `next` advances it in place)"""
+    __slots__ = ("items", "pos")
+
+    def __init__(self, items):
+        self.items = list(items)
+        self.pos = 0
+
+    def __repr__(self):
+        return "iter%s@%d" % (self.items[:6], self.pos)
+
+
 class Struct:
     __slots__ = ("fields", "closure")
 
@@ -288,7 +300,7 @@ class Evaluator:
         if s == "()":
             return ()
         try:
-            return float(s)
+            return float(s[:-3] if s.endswith(("f32", "f64")) and s[:-3] and s[-4] not in "xX" else s)
         except ValueError:
             pass
         if "::" in s and not s.startswith('b"'):
@@ -383,7 +395,7 @@ class Evaluator:
                 if rv[1] == "IntToInt" and isinstance(v, int) and rv[3] in ("u8", "u16", "u32", "u64", "usize") and v < 0:
                     raise Unsupported("negative to unsigned cast")
                 if rv[1] == "IntToInt" and isinstance(v, int) and not isinstance(v, bool):
-                    bits = {"u8": 8, "u16": 16, "u32": 32, "i8": 8, "i16": 16, "i32": 32}.get(rv[3])
+                    bits = {"u8": 8, "u16": 16, "u32": 32, "i8": 8, "i16": 16, "i32": 32, "u64": 64, "i64": 64, "usize": 64, "isize": 64}.get(rv[3])
                     if bits and not -(1 << (bits - 1)) <= v < (1 << bits):
                         v &= (1 << bits) - 1         # a narrowing cast keeps the low bits
                         if rv[3].startswith("i") and v >= 1 << (bits - 1):
@@ -462,6 +474,14 @@ class Evaluator:
         args = [self.operand(fr, a) for a in t[2]]
         name = c.get("res", c["fn"])
         short = c["fn"]
+        for suffix, hook in getattr(self, "intercept", {}).items():
+            if name.endswith(suffix) or short.endswith(suffix):
+                return hook(args)       # a callee the caller of the evaluator models itself (e.g. a scripted bit source)
+        if short.endswith("ops::try_trait::Try::branch") and len(args) == 1 and isinstance(args[0], Enum) and args[0].name in ("Ok", "Err", "Some", "None"):
+            o = args[0]
+            if o.name in ("Ok", "Some"):
+                return Enum("core::ops::control_flow::ControlFlow", 0, "Continue", [o.fields[0]])
+            return Enum("core::ops::control_flow::ControlFlow", 1, "Break", [Enum(o.adt, o.idx, o.name, list(o.fields))])
         # local function with a body
         f2 = self.prog.fn(name) or self.prog.fn(c["fn"])
         if f2 is not None and len(f2.blocks) < 400:
@@ -547,6 +567,46 @@ class Evaluator:
                 f3 = self.prog.fn(getattr(cl, "closure", "") or "")
                 if f3 is not None:
                     return Enum(o.adt, o.idx, o.name, [self.call_fn(f3, [cl, o.fields[0]])])
+        # a small model of integer ranges as iterators (for loops over `a..b`, `(a..b).step_by(n)`, `a..=b`)
+        if sh0 == "core::iter::traits::iterator::Iterator::step_by" and len(args) == 2 and isinstance(args[1], int) and args[1] > 0:
+            it = self._as_iter(args[0])
+            if it is not None:
+                return PyIter(it.items[it.pos::args[1]])
+        if sh0 in ("core::iter::traits::collect::IntoIterator::into_iter", "core::iter::traits::iterator::Iterator::by_ref") and len(args) == 1:
+            if isinstance(args[0], PyIter):
+                return args[0]
+            if isinstance(args[0], Struct) and len(args[0].fields) == 2 and all(isinstance(q, int) for q in args[0].fields):
+                return args[0]          # Range<int> is its own iterator (handled in `next`)
+            if isinstance(args[0], tuple) and len(args[0]) == 3 and args[0][0] == "rangei":
+                return self._as_iter(args[0])
+        if sh0 == "core::iter::traits::iterator::Iterator::next" and len(args) == 1 and isinstance(args[0], Ref):
+            v = self.deref_val(args[0])
+            if isinstance(v, PyIter):
+                if v.pos < len(v.items):
+                    v.pos += 1
+                    return Enum("core::option::Option", 1, "Some", [v.items[v.pos - 1]])
+                return Enum("core::option::Option", 0, "None", [])
+            if isinstance(v, Struct) and len(v.fields) == 2 and all(isinstance(q, int) and not isinstance(q, bool) for q in v.fields):
+                if v.fields[0] < v.fields[1]:
+                    v.fields[0] += 1
+                    return Enum("core::option::Option", 1, "Some", [v.fields[0] - 1])
+                return Enum("core::option::Option", 0, "None", [])
+        if short in ("core::f32::<impl f32>::from_bits", "core::f64::<impl f64>::from_bits") and len(args) == 1 and isinstance(args[0], int):
+            import struct
+            if "f32" in short:
+                return struct.unpack("<f", struct.pack("<I", args[0] & 0xffffffff))[0]
+            return struct.unpack("<d", struct.pack("<Q", args[0] & 0xffffffffffffffff))[0]
+        if short.startswith("core::result::Result::<T, E>::") and args and isinstance(args[0], Enum) and short.split("::")[-1] in ("map", "map_err") and len(args) == 2:
+            o = args[0]
+            meth = short.split("::")[-1]
+            if (o.name == "Ok") != (meth == "map"):
+                return o
+            cl = args[1]
+            f3 = self.prog.fn(getattr(cl, "closure", "") or "") if isinstance(cl, Struct) else None
+            if f3 is not None:
+                return Enum(o.adt, o.idx, o.name, [self.call_fn(f3, [cl, o.fields[0]])])
+            if isinstance(cl, tuple) and len(cl) == 2 and cl[0] == "fn" and meth == "map_err":
+                return Enum(o.adt, o.idx, o.name, [UNKNOWN])
         if short.endswith("RangeInclusive::<Idx>::new") and len(args) == 2:
             return ("rangei", args[0], args[1])
         if short.startswith("core::ops::range::Range") and short.split("::<")[0].endswith("Range") is False and short.endswith("::contains") and len(args) == 2:
@@ -575,6 +635,15 @@ class Evaluator:
                 self.write_place(f2, [r.key[2]] + [list(x) if isinstance(x, tuple) else x for x in r.key[3:]], v)
             return ()
         raise Unsupported("call to %s" % short)
+
+    def _as_iter(self, v):
+        if isinstance(v, PyIter):
+            return v
+        if isinstance(v, Struct) and len(v.fields) == 2 and all(isinstance(q, int) and not isinstance(q, bool) for q in v.fields):
+            return PyIter(list(range(v.fields[0], v.fields[1]))) if v.fields[1] - v.fields[0] < 100000 else None
+        if isinstance(v, tuple) and len(v) == 3 and v[0] == "rangei" and all(isinstance(q, int) for q in v[1:]):
+            return PyIter(list(range(v[1], v[2] + 1))) if v[2] - v[1] < 100000 else None
+        return None
 
     def deref_val(self, v):
         if isinstance(v, Ref):
